@@ -49,6 +49,8 @@ def gen(seed, tier="quick"):
              "tup": g.add_ann({"k": "tuple", "items": [q1, "int"]}),
              "uni": g.add_ann({"k": "union", "items": [q1, "str"]}),
              "nest": g.add_ann({"k": "tree", "leaf": q1, "struct": None}),
+             # a structure-less PyTree that does NOT match, tried before the '?' alternative for the same leaf
+             "uni_nest": g.add_ann({"k": "union", "items": [g.add_ann({"k": "tree", "leaf": "str", "struct": None}), q1]}),
              "nest2": g.add_ann({"k": "tree", "leaf": g.add_ann({"k": "tree", "leaf": q1, "struct": None}), "struct": None})}
     lk = r.choice(sorted(kinds))
     L = kinds[lk]
